@@ -97,7 +97,7 @@ UNITS += [
          rewrites=[
              Rw("PackChecker::new(repo)?", "PackCheckerD::new(repo)?", why="PackChecker -> stub (lists packs: read only)"),
              Rw("for index in be.stream_all::<IndexFile>(&p)? {", "let vstream = be.vstream_all_index(&p)?; for index in it: vstream.into_iter() {", why="channel stream -> vector of per-file results; Verus for-loop syntax"),
-             Rw(r"repo\.warm_up_wait\(pack_read_header\.iter\(\)\.map\(\|\(id, _, _\)\| \*id\)\)\?;", "repo.vwarm_up_wait(&pack_read_header, vwarm)?;", regex=True, why="iterator adapter argument -> the vector itself; warm-up is no repository write (ASSUMED); the result is kept as the proof token the header reads require (C16)"),
+             Rw(r"repo\.warm_up_wait\((\w+(?:\.\w+)*)\.iter\(\)\.map\(\|\(id, _, _\)\| \*id\)\)\?;", r"repo.vwarm_up_wait(&\1, vwarm)?;", regex=True, why="iterator adapter argument -> the vector itself; warm-up is no repository write (ASSUMED); the result is kept as the proof token the header reads require (C16)"),
              Rw("let indexer = Indexer::new(be.clone()).into_shared();", "let mut indexer = IndexerD::vnew(be);", why="Arc<RwLock<Indexer>> -> owned stub with ghost emptiness"),
              Rw(r"p\.set_length\(pack_read_header\.len\(\)\.try_into\(\)\.map_err\(\|err\| \{.*?\}\)\?\);", "p.set_length(pack_read_header.len() as u64);" + "\n" * 7, regex=True, why="usize -> u64 conversion with error-building closure -> cast (lossless on 64 bit)"),
              Rw("for (id, size_hint, packsize) in pack_read_header {", "for e in it3: pack_read_header.iter() { let (id, size_hint, packsize) = (e.0, e.1, e.2);", why="tuple pattern in for -> explicit destructuring; Verus for-loop syntax"),
